@@ -83,11 +83,12 @@ Definition spec_str (fn : bytes) (s : bytes) (args : list value) : sres :=
     | _ => SErr
     end
   else if is (bs "decimal") then
-    if negb (looks_int s) then SVal (VStr s) else
+    (* wrong argument kinds are an error for every receiver; a text that is no integer is returned as it is *)
     match args with
-    | [] => SVal (VStr (s ++ bs ".00"))
-    | [VStr sep] => SVal (VStr (s ++ sep ++ bs "00"))
-    | [VStr sep; VInt d] => if (d <=? 0)%Z then SVal (VStr s)
+    | [] => if negb (looks_int s) then SVal (VStr s) else SVal (VStr (s ++ bs ".00"))
+    | [VStr sep] => if negb (looks_int s) then SVal (VStr s) else SVal (VStr (s ++ sep ++ bs "00"))
+    | [VStr sep; VInt d] => if negb (looks_int s) then SVal (VStr s)
+                            else if (d <=? 0)%Z then SVal (VStr s)
                             else if (1000 <? d)%Z then SUnspec
                             else SVal (VStr (s ++ sep ++ zeros (Z.to_nat d)))
     | _ => SErr
